@@ -1,5 +1,6 @@
 """C40 runcards and dict-like structures round-trip through their raw form; declared interpolation settings are used."""
 
+import copy
 import dataclasses
 import enum
 import typing
@@ -49,6 +50,9 @@ LEVEL_TEXT = (
 )
 
 
+BASIS_TOL = 1e-6  # x (1 + sum |p_j|): rounding of the monomial-expanded basis; log vs linear bases differ by O(1e-2..1)
+
+
 def budget(tier):
     if tier == "quick":
         return dict(max_examples=400, shards=8, wall_s=90, shrink_s=15)
@@ -69,13 +73,14 @@ def _st_scalar(draw, st, t, allow_np=True):
     elif t == "bool":
         v = draw(st.booleans())
     else:
-        return {"v": draw(st.one_of(st.sampled_from(TRICKY), st.text(max_size=6)))}
+        v = draw(st.one_of(st.sampled_from(TRICKY), st.text(max_size=6)))
+        return {"v": v, "np": draw(st.sampled_from([None, None, "str_"])) if allow_np else None}
     npk = draw(st.sampled_from([None, None] + sc.NP_FOR[t])) if allow_np else None
     return {"v": v, "np": npk}
 
 
 def _draw_type(draw, st, depth):
-    kinds = SCALARS + ["enum_s", "enum_i", "ndarray", "ndarray", "xgrid", "dict", "plain"]
+    kinds = SCALARS + ["enum_s", "enum_i", "enum_str", "enum_int", "ndarray", "ndarray", "xgrid", "dict", "plain"]
     if depth > 0:
         kinds = kinds + ["opt", "opt", "list", "tuple", "nested"]
     k = draw(st.sampled_from(kinds))
@@ -99,6 +104,10 @@ def _draw_value(draw, st, t):
             return {"v": draw(st.sampled_from(["RED", "GREEN", "DEEP_BLUE"]))}
         if t == "enum_i":
             return {"v": draw(st.sampled_from(["LOW", "HIGH"]))}
+        if t == "enum_str":
+            return {"v": draw(st.sampled_from(["ALPHA", "BETA_GAMMA"]))}
+        if t == "enum_int":
+            return {"v": draw(st.sampled_from(["ONE", "TWO", "SEVEN"]))}
         if t == "ndarray":
             dtype = draw(st.sampled_from(["float64", "float64", "float32", "int64", "int32", "bool"]))
             shape = draw(st.lists(st.integers(1, 3), min_size=1, max_size=3))
@@ -137,12 +146,15 @@ def strategy(tier):
         s = draw(sc.st_settings())
         leaves = [("theory", p, k) for p, k in sc.leaf_paths(sc.raw_theory(s))]
         leaves += [("operator", p, k) for p, k in sc.leaf_paths(sc.raw_operator(s))]
+        # the only free string of the cards; from_dict turns any str subclass into str, so only assignment keeps it
+        leaves += [("operator", ["eko_version"], "str")] * 3
         subs = []
         for _ in range(draw(st.sampled_from([0, 1, 1, 2, 3]))):
             card, path, kind = draw(st.sampled_from(leaves))
-            how = "raw" if path[0] == "xgrid" else draw(st.sampled_from(["raw", "attr"]))
+            how = "raw" if path[0] == "xgrid" else ("attr" if kind == "str" else draw(st.sampled_from(["raw", "attr"])))
             subs.append(dict(card=card, path=path, np=draw(st.sampled_from(sc.NP_FOR[kind])), how=how))
-        return dict(kind="cards", s=s, subs=subs, grid_obj=draw(st.sampled_from([False, False, True])))
+        return dict(kind="cards", s=s, subs=subs, grid_obj=draw(st.sampled_from([False, False, True])),
+                    twin_first=draw(st.booleans()))
 
     @st.composite
     def dictlike(draw):
@@ -169,6 +181,21 @@ class Level(enum.Enum):
     HIGH = 2
 
 
+class Kind(str, enum.Enum):
+    """Enum with a str mixin: its members are str instances."""
+
+    ALPHA = "alpha"
+    BETA_GAMMA = "beta-gamma"
+
+
+class Rank(enum.IntEnum):
+    """Enum with an int mixin: its members are int instances."""
+
+    ONE = 1
+    TWO = 2
+    SEVEN = 7
+
+
 @dataclasses.dataclass
 class PlainDC:
     i: int
@@ -188,7 +215,7 @@ def _ann(t, counter):
     from eko.io.dictlike import DictLike
 
     if isinstance(t, str):
-        return {"int": int, "float": float, "str": str, "bool": bool, "enum_s": Colour, "enum_i": Level,
+        return {"int": int, "float": float, "str": str, "bool": bool, "enum_s": Colour, "enum_i": Level, "enum_str": Kind, "enum_int": Rank,
                 "ndarray": npt.NDArray, "xgrid": interpolation.XGrid, "dict": dict, "plain": PlainDC}[t]
     if t[0] == "opt":
         return typing.Optional[_ann(t[1], counter)]
@@ -214,6 +241,12 @@ def _val(t, ann, v, info):
             return Colour[v["v"]]
         if t == "enum_i":
             return Level[v["v"]]
+        if t == "enum_str":
+            info["mixin"] = True
+            return Kind[v["v"]]
+        if t == "enum_int":
+            info["mixin"] = True
+            return Rank[v["v"]]
         if t == "ndarray":
             info["array"] = True
             return np.array(v["flat"], dtype=v["dtype"]).reshape(v["shape"])
@@ -319,24 +352,66 @@ def _roundtrip(res, what, obj, cls):
     return back
 
 
-def _check_interpolator(res, s, card, tag, declared):
+def _probe(nodes):
+    """A point strictly inside the widest area (in ln x) of the grid: there log and linear bases differ most."""
+    xs = sorted(nodes)
+    i = max(range(len(xs) - 1), key=lambda j: xs[j + 1] / xs[j])
+    return float(np.sqrt(xs[i] * xs[i + 1]))
+
+
+def _ref_row(nodes, deg, is_log, x):
+    """Basis function values at x from the independent exact Lagrange reference (vf/refs/i_lagrange.py)."""
+    import math
+
+    from vf.refs import i_lagrange as il
+
+    xs = sorted(nodes)
+    us = [math.log(v) for v in xs] if is_log else xs
+    u = math.log(x) if is_log else x
+    return [float(v) for v in il.basis_row(u, us, deg)]
+
+
+def _check_interpolator(res, card, tag, declared, deg, is_log, first=True):
+    """commons.interpolator(card) must carry the card's declared degree, nodes, log flag - and really use them."""
     from eko.runner import commons
 
+    hist = "" if first else "history-dependent/"
     try:
         ip = commons.interpolator(card)
     except Exception as e:  # noqa: BLE001
-        res.fail(exc_bucket(f"{ID}/interpolator/call", e), f"commons.interpolator({tag} card) raised {e!r}")
+        res.fail(exc_bucket(f"{ID}/interpolator/{hist}call", e), f"commons.interpolator({tag} card) raised {e!r}")
         return
-    if ip.polynomial_degree != s["deg"]:
-        res.fail(f"{ID}/interpolator/degree", f"{tag}: degree {ip.polynomial_degree} != declared {s['deg']}")
+    if ip.polynomial_degree != deg:
+        res.fail(f"{ID}/interpolator/{hist}degree", f"{tag}: degree {ip.polynomial_degree} != declared {deg}")
+        return
     nodes = np.asarray(ip.xgrid.raw)
     if nodes.shape != (len(declared),) or not np.array_equal(nodes, np.array(sorted(declared))):
-        res.fail(f"{ID}/interpolator/nodes", f"{tag}: interpolator nodes differ from the declared grid")
-    if bool(ip.log) != bool(s["is_log"]):
+        res.fail(f"{ID}/interpolator/{hist}nodes", f"{tag}: interpolator nodes differ from the declared grid")
+        return
+    if bool(ip.log) != bool(is_log) or bool(ip.xgrid.log) != bool(is_log):
         res.fail(
-            f"{ID}/interpolator/is_log-ignored",
-            f"{tag}: operator card declares interpolation_is_log={s['is_log']} but commons.interpolator(card).log = "
-            f"{ip.log} (card.xgrid.log = {card.xgrid.log})",
+            f"{ID}/interpolator/{hist}is_log-ignored",
+            f"{tag}: operator card declares interpolation_is_log={is_log} but commons.interpolator(card).log = "
+            f"{ip.log}, its xgrid.log = {ip.xgrid.log} (card.xgrid.log = {card.xgrid.log})",
+        )
+        return
+    # the flag may be right while the compiled areas belong to another interpolation type: evaluate the basis
+    x = _probe(declared)
+    want = np.array(_ref_row(declared, deg, is_log, x))
+    try:
+        got = np.array([bf.evaluate_x(x) for bf in ip])
+    except Exception as e:  # noqa: BLE001
+        res.fail(exc_bucket(f"{ID}/interpolator/{hist}evaluate", e), f"{tag}: evaluating the basis at x={x!r} raised {e!r}")
+        return
+    tol = BASIS_TOL * (1.0 + float(np.abs(want).sum()))
+    if got.shape != want.shape or not np.all(np.isfinite(got)) or float(np.abs(got - want).max()) > tol:
+        other = np.array(_ref_row(declared, deg, not is_log, x))
+        looks = " (it matches the basis of the OTHER interpolation type)" if got.shape == other.shape and float(
+            np.abs(got - other).max()) <= tol else ""
+        res.fail(
+            f"{ID}/interpolator/{hist}basis-values",
+            f"{tag}: basis functions at x={x!r} for is_log={is_log}, degree {deg}: max deviation "
+            f"{float(np.abs(got - want).max()) if got.shape == want.shape else 'shape'} from the exact Lagrange reference{looks}",
         )
 
 
@@ -386,9 +461,29 @@ def _check_cards(case):
         if name == "operator":
             back_op = back
     declared = [float(x) for x in raws["operator"]["xgrid"]]  # after the numpy substitutions (float32 rounds)
-    _check_interpolator(res, s, objs["operator"], "built", declared)
+    # history: the twin card differs only in the declared interpolation type; evaluated alternately in one process
+    raw_twin = copy.deepcopy(raws["operator"])
+    raw_twin["configs"]["interpolation_is_log"] = not s["is_log"]
+    try:
+        twin = OperatorCard.from_dict(raw_twin)
+    except Exception as e:  # noqa: BLE001
+        res.fail(exc_bucket(f"{ID}/cards/from_dict-input", e), f"OperatorCard.from_dict raised {e!r} on the twin card")
+        twin = None
+    seq = [("built", objs["operator"], s["is_log"])]
+    if twin is not None:
+        seq.append(("twin", twin, not s["is_log"]))
+        if case.get("twin_first"):
+            seq = seq[::-1]
+        seq = seq + seq  # card, twin, card, twin (or twin first)
     if back_op is not None:
-        _check_interpolator(res, s, back_op, "reloaded", declared)
+        seq.append(("reloaded", back_op, s["is_log"]))
+    passed = {}
+    for i, (tag, card, flag) in enumerate(seq):
+        n0 = len(res.violations)
+        # a repeat evaluation failing after the same card's first one held can only come from what happened in between
+        _check_interpolator(res, card, f"{tag} (call {i + 1} of {'>'.join(t for t, _, _ in seq)})", declared, s["deg"],
+                            flag, first=not passed.get(tag, False))
+        passed.setdefault(tag, len(res.violations) == n0)
     return res
 
 
@@ -397,7 +492,7 @@ def _check_dictlike(case):
 
     res = CaseResult()
     counter = [0]
-    info = dict(np=set(), array=False, linear=False, none=set())
+    info = dict(np=set(), array=False, linear=False, none=set(), mixin=False)
     anns, vals = [], []
     for t, v in case["fields"]:
         a = _ann(t, counter)
@@ -408,7 +503,7 @@ def _check_dictlike(case):
     tops = [t if isinstance(t, str) else t[0] for t, _ in case["fields"]]
     res.classes = ["kind=dictlike"] + sorted({f"field={t}" for t in tops}) + sorted(f"np={n}" for n in info["np"]) + sorted(
         f"none-for={n}" for n in info["none"])
-    res.nontrivial = bool(info["np"]) or info["array"] or info["linear"]
+    res.nontrivial = bool(info["np"]) or info["array"] or info["linear"] or info["mixin"]
     _roundtrip(res, "dictlike", obj, cls)
     return res
 
